@@ -245,10 +245,12 @@ def check_enlarged(rec, key, obs, e, what):
     ok_dir, ok_lo, ok_hi, ok_per = True, True, True, True
     detail = {}
     m = np.linalg.solve(V.T, (oo - o))            # origin shift in units of the true cell vectors
+    # a rounding error e of the printed origin shows up in these skew coordinates amplified by up to cond(V)
+    amp = 1.8 * float(np.linalg.cond(V))
     for i in range(3):
         li = np.linalg.norm(V[i])
         if pbc[i]:
-            if not (np.abs(Vo[i] - V[i]).max() <= e.tol_vects and abs(m[i]) * li <= e.tol_origin + EPS * np.abs(o).max()):
+            if not (np.abs(Vo[i] - V[i]).max() <= e.tol_vects and abs(m[i]) * li <= amp * (e.tol_origin + EPS * np.abs(o).max())):
                 ok_per = False
                 detail[f'axis{i}'] = dict(got=Vo[i], expected=V[i], origin_shift=m[i])
             continue
@@ -257,7 +259,7 @@ def check_enlarged(rec, key, obs, e, what):
             ok_dir = False
             detail[f'axis{i}'] = dict(got=Vo[i], expected_parallel_to=V[i])
             continue
-        tolr = (e.tol_pos + e.tol_vects + e.tol_origin) / li + 1e-9
+        tolr = amp * (e.tol_pos + e.tol_vects + e.tol_origin) / li + 1e-9
         lo, hi = float(m[i]), float(m[i] + s)
         rmin, rmax = float(r[:, i].min()), float(r[:, i].max())
         if rmin > 1e-6:
